@@ -240,13 +240,10 @@ func (r *run) do(a Action, where string, from *comp) (delivered bool) {
 		if n < 1 {
 			n = 1
 		}
-		st := r.col.GetState()
-		// honoured for sure when it closes the channel: state Starting or Running and nobody else moves the
-		// state meanwhile (a callback runs on the loop's goroutine; at idle only a pending reload could)
+		// Only a Shutdown() fired with the loop idle in Running (and no reload pending) has to stop the run
+		// (fireRound marks that case); one issued while the collector is starting or reloading merely has to
+		// be safe — the statement does not promise that it wins.
 		r.stopIssued.Store(true)
-		if inCallback && (st == otelcol.StateStarting || st == otelcol.StateRunning) {
-			r.mustReturn.Store(true)
-		}
 		if inCallback || n == 1 {
 			for i := 0; i < n; i++ {
 				r.callShutdown(where)
@@ -494,8 +491,7 @@ func (r *run) execute() {
 	r.mu.Unlock()
 	for i := 0; i < h.PreShutdown; i++ {
 		r.stopIssued.Store(true)
-		r.mustReturn.Store(true) // state Starting: the channel is closed, Run must come back by itself
-		r.callShutdown("pre-run")
+		r.callShutdown("pre-run") // before Run: has to be safe; whether it already ends the coming run is not promised
 	}
 	go func() {
 		r.goid.Store(goroutineID())
